@@ -371,7 +371,7 @@ def boundary_sweep_programs(boundaries, mnemonics=REL):
                     yield ('fwd-data', b, mn, delta, mis), [('pad', mis), ('ref', mn, 'T'), ('pad', max(0, k - 6)), ('data', 1234), ('pad', 2), ('label', 'T'), ('opr', 'ADD')]
 
 
-def gen_tour(r, nblocks=None):
+def gen_tour(r, nblocks=None, funcproc=False):
     """Executable tour: n labelled blocks in shuffled source order; block i writes byte id_i to stream 0 and
     transfers control to the next block of a random permutation (BR / BRZ with areg=0 / BRN with areg=-1 /
     LDAP+BRB); ids are held in labelled DATA words read through absolute references. The last block exits.
@@ -393,7 +393,10 @@ def gen_tour(r, nblocks=None):
         items += data
     for bi in src_order:
         k = order.index(bi)
-        blk = [('label', 'B%d' % bi),
+        kind = 'label'
+        if funcproc:
+            kind = r.choice(['label', 'func', 'proc', 'func'])      # FUNC/PROC directives: entries of the symbol table
+        blk = [(kind, 'B%d' % bi),
                ('ref', 'LDAM', 'D%d' % bi),            # areg = id
                ('imm', 'LDBM', 1), ('imm', 'STAI', 2),  # sp[2] = id
                ('imm', 'LDAC', 0), ('imm', 'STAI', 3),  # sp[3] = 0 (stream)
